@@ -167,7 +167,7 @@ func cross(mains []string, assigns ...[][]string) []combo {
 // extension completion, path cleaning or trimming. Distinct names are distinct
 // modules (the module map is looked up by exact name); the oracle is unchanged.
 var nameSets2 = [][]string{
-	{"m", "M"}, {"lib/json", "lib/JSON"}, {"a", "a.tengo"}, {"./a", "a"}, {"a", "a "}, {"\u00e9", "\u00c9"},
+	{"m", "M"}, {"lib\\util", "lib/util"}, {"q\"uote", "quote"}, {"tab\tname", "tab\\tname"}, {"lib/json", "lib/JSON"}, {"a", "a.tengo"}, {"./a", "a"}, {"a", "a "}, {"\u00e9", "\u00c9"},
 }
 var nameSets3 = [][]string{
 	{"m", "m2", "M"}, {"lib/json", "lib/JSON", "LIB/json"}, {"a", "a.tengo", "./a"}, {"\u00e9", "\u00c9", "e\u0301"}, {"a", "a ", "A"},
